@@ -98,11 +98,17 @@ def run_unit(u, desc, tier, seed):
                 structure.__dict__.pop(k, None)
 
 
+# the atom-type-loop variants are read one after the other by fresh readers in ONE process, in an order that contains every ordered pair
+# of variants (full->None, None->nodisp, nodisp->full, full->nodisp, nodisp->None, None->full at the wrap-around), and consecutive files
+# contain different elements: nothing of an earlier file may show up in a later one (history independence of the readers)
+TLOOP_SEQ = ('full', None, 'nodisp', 'full', 'nodisp', None)
+
+
 def run_cif(u, structure, calls):
     adps = ['Uiso', 'Uani', 'Biso', 'Bani', None]
     nconf = 0
     allbad = []
-    for adp, occ_present, mkey, tloop in itertools.product(adps, (True, False), ('_atom_site_symmetry_multiplicity', '_atom_site_symetry_multiplicity', None), ('full', 'nodisp', None)):
+    for adp, occ_present, mkey, tloop in itertools.product(adps, (True, False), ('_atom_site_symmetry_multiplicity', '_atom_site_symetry_multiplicity', None), TLOOP_SEQ):
         nconf += 1
         del calls[:]
         b = Block()
@@ -112,7 +118,8 @@ def run_cif(u, structure, calls):
             b[k] = t + e
         b['_symmetry_space_group_name_H-M'] = 'P 21/c' if nconf % 2 else ' P n m a\t'
         labels = ['Fe1', 'O2']
-        types = ['Fe', 'o']
+        el2 = 'O' if nconf % 2 else 'S'
+        types = ['Fe', el2.lower()]
         b['_atom_site_label'] = list(labels)
         b['_atom_site_type_symbol'] = list(types)
         xyz = [[T.num('x'), T.num('y'), T.num('z')] for _ in labels]
@@ -138,12 +145,12 @@ def run_cif(u, structure, calls):
         mult = [T.num('mult'), T.num('mult')]
         if mkey:
             b[mkey] = list(mult)
-        disp = {'FE': [T.num('fp'), T.num('fpp')], 'O': [T.num('fp'), T.num('fpp')]}
+        disp = {'FE': [T.num('fp'), T.num('fpp')], el2: [T.num('fp'), T.num('fpp')]}
         if tloop:
-            b['_atom_type_symbol'] = ['O', 'Fe']
+            b['_atom_type_symbol'] = [el2, 'Fe']
             if tloop == 'full':
-                b['_atom_type_scat_dispersion_real'] = [disp['O'][0] + '(1)', disp['FE'][0]]
-                b['_atom_type_scat_dispersion_imag'] = [disp['O'][1], disp['FE'][1] + '(3)']
+                b['_atom_type_scat_dispersion_real'] = [disp[el2][0] + '(1)', disp['FE'][0]]
+                b['_atom_type_scat_dispersion_imag'] = [disp[el2][1], disp['FE'][1] + '(3)']
         bad = []
         try:
             bl = structure.build_atomlist()
@@ -195,9 +202,9 @@ def run_cif(u, structure, calls):
                         bad.append('multiplicity computed from the wrong position/space group')
         want_disp = {}
         if tloop == 'full':
-            want_disp = {'FE': [T.val(disp['FE'][0]), T.val(disp['FE'][1])], 'O': [T.val(disp['O'][0]), T.val(disp['O'][1])]}
+            want_disp = {'FE': [T.val(disp['FE'][0]), T.val(disp['FE'][1])], el2: [T.val(disp[el2][0]), T.val(disp[el2][1])]}
         else:
-            want_disp = {'FE': None, 'O': None}
+            want_disp = {'FE': None, el2: None}
         if set(al.dispersion.keys()) != set(want_disp.keys()):
             bad.append('dispersion keys %s' % sorted(al.dispersion.keys()))
         else:
